@@ -1,6 +1,7 @@
 package main
 
 import (
+	"go/token"
 	"strings"
 
 	"golang.org/x/tools/go/ssa"
@@ -107,6 +108,15 @@ func c10Round3(c *Ctx) {
 }
 
 func c16Round3(c *Ctx) {
+	// an empty value decoded into a pointer marked rlp:"nil" makes the pointer nil, also when the destination is reused
+	// and still holds the pointer of an earlier decode (the decoded value must equal what the bytes say)
+	if fn := c.P.FuncByName("lib/rlp.makeNilPtrDecoder$1"); fn != nil && len(fn.Blocks) > 0 {
+		c.Funcs["lib/rlp.makeNilPtrDecoder$1"] = true
+		c.FollowedBy(fn, "consume the empty value", StoreTo(`^&s\.kind$`), "set the destination to the nil value",
+			CallTo(`^\(reflect\.Value\)\.Set$`, `\(val, nilPtr\)$`), "return", AnyReturn())
+	} else {
+		c.Unres("anchor", "lib/rlp.makeNilPtrDecoder$1", "nil-pointer decoder closure not found")
+	}
 	// the slim account form drops the storage root only when it is the empty root, whatever the code
 	if fn := c.Fn("types", "", "SlimAccountRLP"); fn != nil {
 		n, ok := 0, true
@@ -124,6 +134,40 @@ func c16Round3(c *Ctx) {
 }
 
 func c18Round3(c *Ctx) {
+	// the gossip routines pick a random bit of an array whose size the peer chose; the random range is never empty
+	// (RandIntn(0) panics, under the global generator's lock): a zero count is replaced or excluded on the way to the call
+	if fn := c.Fn("lib/common", "BitArray", "PickRandom"); fn != nil {
+		n := 0
+		for _, in := range findInstrs(fn, CallTo(`^lib/common\.RandIntn$`, "")) {
+			n++
+			arg := callCommon(in).Args[0]
+			for {
+				cv, isC := arg.(*ssa.Convert)
+				if !isC {
+					break
+				}
+				arg = cv.X
+			}
+			ok := true
+			dc := domConds(in)
+			for _, pc := range phiCases(arg) {
+				if k, isK := constIntVal(pc.Val); isK {
+					ok = ok && k > 0
+					continue
+				}
+				v := pathOf(pc.Val)
+				have := false
+				for _, cnd := range append(append([]string{}, dc...), pc.Conds...) {
+					if cnd == "("+v+" == const:0)=F" || cnd == "("+v+" != const:0)=T" || cnd == "("+v+" > const:0)=T" || cnd == "("+v+" <= const:0)=F" || cnd == "("+v+" < const:1)=F" {
+						have = true
+					}
+				}
+				ok = ok && have
+			}
+			c.Check("G", fnName(fn)+"/"+clip(describeInstr(in), 60)+" has a non-empty range", ok, instrPos(in), 1, "")
+		}
+		c.Check("G", fnName(fn)+"/random picks found", n == 3, fn.Pos(), n, "")
+	}
 	// a peer is charged for a catch-up round when the round is created for it, not when its vote turns out to be valid
 	if fn := c.Fn("consensus/types", "HeightVoteSet", "AddVote"); fn != nil {
 		charge := func(in ssa.Instruction) bool {
@@ -164,6 +208,115 @@ func c06Round3(c *Ctx) {
 
 // the previous and the reported validators are related by address only: an element of one list is never picked by a
 // position of the other (a report in another order would be taken for another change set)
+// signerEqualRule: the sender cache of a transaction is keyed by the signer that derived the sender; two signers answer
+// Equal only when they are of the same kind (and chain), or a sender derived under one rule set is served from the cache
+// to a node validating under another (a node that saw the transaction in its pool and one that first meets it in the block
+// then disagree on its sender).
+func signerEqualRule(c *Ctx) {
+	for _, t := range []string{"HomesteadSigner", "FrontierSigner", "ChainIDSigner"} {
+		fn := c.Fn("types", t, "Equal")
+		if fn == nil {
+			continue
+		}
+		var okv ssa.Value
+		for _, b := range fn.Blocks {
+			for _, in := range b.Instrs {
+				if ta, ok := in.(*ssa.TypeAssert); ok && ta.CommaOk && strings.HasSuffix(ta.AssertedType.String(), "types."+t) {
+					for _, r := range *ta.Referrers() {
+						if e, ok := r.(*ssa.Extract); ok && e.Index == 1 {
+							okv = e
+						}
+					}
+				}
+			}
+		}
+		c.Check("F", fnName(fn)+"/asks whether the other signer is of its own kind", okv != nil, fn.Pos(), 1, "")
+		if okv == nil {
+			continue
+		}
+		// what is returned: that answer, or a value computed only where the answer was yes (false elsewhere)
+		edge := map[ssa.Value]bool{}
+		shape := true
+		for _, in := range findInstrs(fn, AnyReturn()) {
+			v := in.(*ssa.Return).Results[0]
+			if v == okv {
+				continue
+			}
+			ph, ok := v.(*ssa.Phi)
+			if !ok {
+				shape = false
+				continue
+			}
+			for _, e := range ph.Edges {
+				if k, ok := e.(*ssa.Const); ok && k.Value != nil && k.Value.String() == "false" {
+					continue
+				}
+				if e == okv {
+					continue
+				}
+				if _, ok := e.(ssa.Instruction); !ok {
+					shape = false
+					continue
+				}
+				edge[e] = true
+			}
+		}
+		c.Check("F", fnName(fn)+"/answers with the kind test, or false where it failed", shape, fn.Pos(), 1, "")
+		if len(edge) > 0 {
+			c.Guarded(fn, "compare further (chain id)", func(in ssa.Instruction) bool { v, ok := in.(ssa.Value); return ok && edge[v] },
+				G("the other signer is of the same kind", True(`^s2\.\(types\.`+t+`\)#1$`)))
+		}
+	}
+}
+
+// mapLoopsRunToTheEnd: the state's loops over its dirty sets visit every entry; a loop left early (a break) processes
+// whichever entries the map happened to yield first, and the root then differs from run to run.
+func mapLoopsRunToTheEnd(c *Ctx) {
+	for _, name := range []string{"Finalise", "IntermediateRoot", "Commit"} {
+		fn := c.Fn("kai/state", "StateDB", name)
+		if fn == nil {
+			continue
+		}
+		loops := mapLoops(fn)
+		n := 0
+		for _, l := range loops {
+			if l.fn != fn {
+				continue
+			}
+			n++
+			hdr := l.rng.Block()
+			for _, ref := range *l.rng.Referrers() {
+				if nx, ok := ref.(*ssa.Next); ok {
+					hdr = nx.Block()
+				}
+			}
+			early := 0
+			var at ssa.Instruction
+			for b := range l.blocks {
+				if b == hdr {
+					continue
+				}
+				for _, s := range b.Succs {
+					_, isRet := s.Instrs[len(s.Instrs)-1].(*ssa.Return)
+					if isRet && (len(hdr.Succs) < 2 || s != hdr.Succs[1]) {
+						continue // an error return out of the loop, not a break
+					}
+					if !l.blocks[s] && s != hdr {
+						early++
+						at = b.Instrs[len(b.Instrs)-1]
+					}
+				}
+			}
+			pos := fn.Pos()
+			if at != nil {
+				pos = instrPos(at)
+			}
+			c.Check("D", fnName(fn)+"/the loop over "+pathOf(l.rng.X)+" visits every entry (no early exit)", early == 0, pos, 1, "")
+		}
+		c.Check("D", fnName(fn)+"/loops over the dirty sets found", n >= 1, fn.Pos(), n, "")
+	}
+}
+
 func c06Positional(c *Ctx) {
 	fn := c.Fn("kai/state/cstate", "", "calculateValidatorSetUpdates")
 	if fn == nil {
@@ -207,7 +360,7 @@ func c19Round3(c *Ctx) {
 	}
 	// every item of a block's evidence list takes part in the duplicate scan, also the ones the pool already knows
 	if fn := c.Fn("types/evidence", "Pool", "CheckEvidence"); fn != nil {
-		c.FollowedBy(fn, "look at an item", CallTo(`^\(\*types/evidence\.Pool\)\.fastCheck$`, ""), "record its hash for the duplicate scan",
+		c.FollowedBy(fn, "look at an item", CallTo(`^\(\*types/evidence\.Pool\)\.(fastCheck|isPending)$`, ""), "record its hash for the duplicate scan",
 			StoreTo(`^&make:\[\]lib/common\.Hash\(call:len\(evList\)\)\[`), "the next item or the verdict", Or(IfOn(`< call:len\(evList\)\)$`), ReturnWith(0, `^nil$`)))
 	}
 }
@@ -266,6 +419,49 @@ func c14Round3(c *Ctx) {
 }
 
 func c20Round3(c *Ctx) {
+	// a configured per-channel receive limit is kept: the default replaces it only when none was configured (else every
+	// reactor's limit silently becomes the 21 MB default and oversized messages are delivered)
+	if fn := c.Fn("lib/p2p/conn", "ChannelDescriptor", "FillDefaults"); fn != nil {
+		for _, f := range []string{"SendQueueCapacity", "RecvBufferCapacity", "RecvMessageCapacity"} {
+			c.Guarded(fn, "replace "+f+" by its default", StoreTo(`^&chDesc\.`+f+`$`), G("none configured ("+f+" == 0)", Cmp(`^chDesc\.`+f+`$`, "==", `^const:0$`)))
+		}
+		n := len(findInstrs(fn, StoreTo(`^&chDesc\.RecvMessageCapacity$`)))
+		c.Check("G", fnName(fn)+"/default receive limit present", n == 1, fn.Pos(), n, "")
+	}
+	// the flush timer of a connection: a tick nobody was ready to take re-arms the timer; isSet stays true, so Set() will
+	// not arm it again, and without the re-arm the bytes accepted by Send stay in the write buffer for good
+	if fn := c.Fn("lib/timer", "ThrottleTimer", "fireRoutine"); fn != nil {
+		reset := CallTo(`^\(\*time\.Timer\)\.Reset$`, "")
+		ok, found := true, 0
+		for _, b := range fn.Blocks {
+			iff, isIf := b.Instrs[len(b.Instrs)-1].(*ssa.If)
+			if !isIf || !re(`^\(select\[.*\]#0 == const:1\)$`).MatchString(pathOf(iff.Cond)) || len(b.Succs) != 2 {
+				continue
+			}
+			found++
+			seen := map[*ssa.BasicBlock]bool{}
+			var walk func(x *ssa.BasicBlock)
+			walk = func(x *ssa.BasicBlock) {
+				if seen[x] {
+					return
+				}
+				seen[x] = true
+				for _, in := range x.Instrs {
+					if reset(in) {
+						return
+					}
+					if _, isRet := in.(*ssa.Return); isRet {
+						ok = false
+					}
+				}
+				for _, sx := range x.Succs {
+					walk(sx)
+				}
+			}
+			walk(b.Succs[1])
+		}
+		c.Check("O", fnName(fn)+"/a tick nobody took re-arms the timer before returning", found == 1 && ok, fn.Pos(), found, "")
+	}
 	// a graceful stop sends until nothing is pending
 	if fn := c.Fn("lib/p2p/conn", "MConnection", "FlushStop"); fn != nil {
 		inLoop := 0
@@ -279,6 +475,46 @@ func c20Round3(c *Ctx) {
 }
 
 func c17Round3(c *Ctx) {
+	// an account is marked local before its earlier remote transactions are moved to the local set (the move looks the
+	// senders up in that set), so a local sender's transactions are exempt from price eviction from then on
+	if fn := c.Fn("mainchain/tx_pool", "TxPool", "add"); fn != nil {
+		c.Precedes(fn, "mark the account local", CallTo(`^\(\*mainchain/tx_pool\.accountSet\)\.add$`, ""), "move its remote transactions to the local set", CallTo(`\)\.RemoteToLocals$`, ""))
+	}
+	// a batch reports one verdict per submission, in submission order: after a slot of the result is filled with a
+	// verdict from the locked phase, the cursor moves past it (else the next verdict overwrites it and an invalid
+	// transaction is reported as accepted)
+	if fn := c.Fn("mainchain/tx_pool", "TxPool", "addTxs"); fn != nil {
+		n, ok := 0, true
+		for _, in := range findInstrs(fn, func(in ssa.Instruction) bool {
+			st, isSt := in.(*ssa.Store)
+			if !isSt {
+				return false
+			}
+			ia, isIA := st.Addr.(*ssa.IndexAddr)
+			if !isIA {
+				return false
+			}
+			_, isPhi := ia.Index.(*ssa.Phi)
+			return isPhi && strings.Contains(pathOf(st.Val), "addTxsLocked(")
+		}) {
+			n++
+			idx := in.(*ssa.Store).Addr.(*ssa.IndexAddr).Index
+			adv := false
+			for _, r := range *idx.Referrers() {
+				if b, isB := r.(*ssa.BinOp); isB && b.Op == token.ADD && b.X == idx && b.Block() == in.Block() {
+					if k, isK := constIntVal(b.Y); isK && k == 1 {
+						for _, rr := range *b.Referrers() {
+							if _, isPhi := rr.(*ssa.Phi); isPhi {
+								adv = true
+							}
+						}
+					}
+				}
+			}
+			ok = ok && adv
+		}
+		c.Check("F", fnName(fn)+"/the result cursor moves past each slot it fills", n == 1 && ok, fn.Pos(), n, "")
+	}
 	// the pending nonce is lowered for the account whose list was capped
 	if fn := c.Fn("mainchain/tx_pool", "TxPool", "truncatePending"); fn != nil {
 		n, ok := 0, true
